@@ -89,7 +89,7 @@ func cacheNamesMain(args mon.Args) {
 		conf := map[string]string{
 			"mq-name": "rawSocket", "mq-config-file": "mq.conf", "ipfix-rpc-enabled": "false", "dynamic-workers": "false",
 			"stats-format": "rest", "stats-http-port": strconv.Itoa(statsPort), "stats-http-addr": "127.0.0.1",
-			"pid-file": filepath.Join(pdir, "vflow.pid"),
+			"pid-file":             filepath.Join(pdir, "vflow.pid"),
 			"ipfix-tpl-cache-file": strings.ReplaceAll(nm.ipfix, "$P", pdir), "netflow9-tpl-cache-file": strings.ReplaceAll(nm.nf9, "$P", pdir),
 			"sflow-enabled": "false", "netflow5-enabled": "false",
 			"ipfix-port": strconv.Itoa(ports["ipfix"]), "netflow9-port": strconv.Itoa(ports["nf9"]), "ipfix-workers": "3", "netflow9-workers": "3",
